@@ -349,6 +349,144 @@ theorem tpfa_bound_pressure_dirichlet (g : Grid) (f : Nat) (p bc : Nat → Rat)
     rowApply_diag (List.range g.nf) (vFace g) f bc List.nodup_range, if_pos (List.mem_range.mpr hf)]
   simp [vFace, hneu, hdir]
 
+/-- Hydrostatic consistency of `vector_source`.  Pressure `p(x) = a + G.x` at the cell centres, the constant
+    vector source `G` in every cell (as the array `vector_source` is multiplied with, `vsd` entries per cell;
+    components of `G` beyond `vsd` must not matter: `d_k G_k = 0` there, e.g. a grid lying in the first `vsd`
+    coordinates), Dirichlet data `p(x_f)`, zero Neumann data:
+    `flux * p + bound_flux * bc + vector_source * G = 0` on EVERY face, for every grid, tensor and
+    boundary assignment (no K-orthogonality needed). -/
+theorem tpfa_hydrostatic_zero_flux (g : Grid) (vsd : Nat) (a : Rat) (G : V3) (p bc : Nat → Rat)
+    (h1 : 1 ≤ vsd) (h3 : vsd ≤ 3)
+    (hz : ∀ h ∈ g.hf, ∀ k, vsd ≤ k → k < 3 → (dvec g h).get k * G.get k = 0)
+    (hnd : g.bndr.Nodup)
+    (hint : ∀ f, f ∉ g.bndr → bsgn g f = 0)
+    (hb : ∀ f ∈ g.bndr, neuAll g f = true ∨ dirEff g f = true)
+    (hp : ∀ c, p c = a + G.dot (g.cc c))
+    (hdir : ∀ f, neuAll g f = false → dirEff g f = true → bc f = a + G.dot (g.fc f))
+    (hneu : ∀ f, neuAll g f = true → bc f = 0) :
+    ∀ f, faceFlux g f p bc + rowApply (vecSrcT g vsd) f (vsVec vsd G) = 0 := by
+  intro f
+  have hvs : rowApply (vecSrcT g vsd) f (vsVec vsd G)
+      = trans g f * ((hfOf g f).map (fun h => h.sgn * (dvec g h).dot G)).sum := by
+    unfold vecSrcT
+    rw [vecSrc_rowApply vsd (fun h k => trans g h.face * (dvec g h).get k * h.sgn)]
+    show ((hfOf g f).map _).sum = _
+    have : ∀ l : List HF, (∀ h ∈ l, h ∈ g.hf ∧ h.face = f) →
+        (l.map (fun h => sumTo vsd (fun k => trans g h.face * (dvec g h).get k * h.sgn
+            * vsVec vsd G (h.cell * vsd + k)))).sum
+          = trans g f * (l.map (fun h => h.sgn * (dvec g h).dot G)).sum := by
+      intro l hl
+      induction l with
+      | nil => simp
+      | cons h l ih =>
+        have hh := hl h (by simp)
+        simp only [List.map_cons, List.sum_cons]
+        rw [ih (fun x hx => hl x (by simp [hx])), hh.2,
+          vecSrc_inner g vsd G h (trans g f) h1 h3 (hz h hh.1)]
+        ring
+    exact this _ (fun h hh => mem_hfOf.mp hh)
+  unfold faceFlux boundFluxT
+  rw [hvs, flux_rowApply, rowApply_diag g.bndr (fun f => tB g f * bsgn g f) f bc hnd]
+  have hs := hydro_sum g f a G p hp (hfOf g f) (fun h hh => (mem_hfOf.mp hh).2)
+  have key : trans g f * sgnDot (hfOf g f) p
+      + trans g f * ((hfOf g f).map (fun h => h.sgn * (dvec g h).dot G)).sum
+      = trans g f * ((a + G.dot (g.fc f)) * bsgn g f) := by
+    unfold bsgn; rw [← hs]; ring
+  by_cases hn : neuAll g f = true
+  · have h0 := hneu f hn
+    have ht : trans g f = 0 := by simp [trans, hn]
+    rw [ht] at key ⊢
+    split_ifs <;> simp [h0]
+  · have hn' : neuAll g f = false := by simpa using hn
+    by_cases hbd : f ∈ g.bndr
+    · rcases hb f hbd with h | h
+      · exact absurd h hn
+      · rw [if_pos hbd, hdir f hn' h]
+        have htb : tB g f = - trans g f := by simp [tB, trans, hn', h]
+        rw [htb]
+        linear_combination key
+    · rw [if_neg hbd]
+      rw [hint f hbd] at key
+      linear_combination key
+
+/-- Hydrostatic consistency of `bound_pressure_vector_source`: on a Neumann face with zero flux datum,
+    `bound_pressure_cell * p + bound_pressure_face * bc + bound_pressure_vector_source * G` is the
+    hydrostatic pressure `a + G.x_f` at the face centre. -/
+theorem tpfa_hydrostatic_bound_pressure (g : Grid) (vsd : Nat) (f : Nat) (h : HF) (a : Rat) (G : V3)
+    (p bc : Nat → Rat)
+    (h1 : 1 ≤ vsd) (h3 : vsd ≤ 3)
+    (hz : ∀ k, vsd ≤ k → k < 3 → (dvec g h).get k * G.get k = 0)
+    (hhf : hfOf g f = [h]) (hf : f < g.nf) (hneu : g.isNeu f = true)
+    (hp : p h.cell = a + G.dot (g.cc h.cell)) (hbc : bc f = 0) :
+    facePressure g f p bc + rowApply (bpVecSrcT g vsd) f (vsVec vsd G) = a + G.dot (g.fc f) := by
+  have hf1 : h.face = f := (mem_hfOf.mp (by rw [hhf]; simp : h ∈ hfOf g f)).2
+  have hvs : rowApply (bpVecSrcT g vsd) f (vsVec vsd G) = (dvec g h).dot G := by
+    unfold bpVecSrcT
+    rw [vecSrc_rowApply vsd (fun h k => if g.isNeu h.face = true then (dvec g h).get k else 0)]
+    show ((hfOf g f).map _).sum = _
+    rw [hhf]
+    simp only [List.map_cons, List.map_nil, List.sum_cons, List.sum_nil, hf1, hneu, if_true, add_zero]
+    rw [← sumTo_dot vsd (dvec g h) G h1 h3 hz]
+    apply sumTo_congr
+    intro k hk
+    rw [vsVec_at vsd G h.cell k hk]
+  have d : (dvec g h).dot G = G.dot (g.fc f) - G.dot (g.cc h.cell) := by
+    unfold dvec; rw [hf1, dot_sub_left, dot_comm (g.cc h.cell) G, dot_comm (g.fc f) G]
+  unfold facePressure bpCellT bpFaceT
+  rw [rowApply_weight (fun f => if g.isNeu f = true then 1 else 0),
+    rowApply_filter _ _ _ _ (by intro t _ hq; simpa using hq),
+    rowApply_diag (List.range g.nf) (vFace g) f bc List.nodup_range, if_pos (List.mem_range.mpr hf), hvs]
+  show _ * ((hfOf g f).map _).sum + _ + _ = _
+  rw [hhf]
+  simp only [hneu, hbc, d, hp, List.map_cons, List.map_nil, List.sum_cons, List.sum_nil, if_true]
+  ring
+
+/-- **TPFA = MPFA on K-orthogonal 2-D grids.**  `G` is a grid of the C11 MPFA model (`C11.Grid2`: any
+    topology given by `face_nodes` / `cell_faces`, any planar geometry, cell-wise tensors, per-face
+    Dirichlet / Neumann), well-formed, with all interaction regions certified nonsingular
+    (`G.certs = some Ls`), and K-orthogonal in the decidable sense `KorthOK`: continuity points at the face
+    centres (η = 0, the value the code uses on non-simplex grids), `n_fᵀ K_c = ± t_half dᵀ` for every
+    half-face (co-normal parallel to the cell-centre-to-face-centre vector — Cartesian / tensor grids with
+    diagonal `K`, their affine images with `K = J K₀ Jᵀ`), non-vanishing half transmissibilities,
+    orientations ±1, two faces of a cell meeting at each of its corners with independent `d`'s.
+    Then for ALL cell pressures `p` and ALL boundary data `bc` the flux the assembled MPFA scheme puts on
+    face `f` (`flux * p + bound_flux * bc` of `pp.Mpfa`) equals the one of the TPFA model on the same grid
+    (`ofGrid2 G`): the `flux` and `bound_flux` matrices of the two schemes coincide as linear maps.
+    Proof: the two-point sub-cell gradients satisfy every row of every interaction region, and the
+    certified regions have a unique solution. -/
+theorem tpfa_eq_mpfa_Korth (G : C11.Grid2) (Ls : List C11.Mat) (p bc : List Rat)
+    (hwf : G.WF) (hcert : G.certs = some Ls) (hK : KorthOK G = true) :
+    ∀ f < G.numFaces,
+      faceFlux (ofGrid2 G) f (fun c => p.getD c 0) (fun f => bc.getD f 0)
+        = G.faceFlux (G.nodeSols Ls p bc) bc f := by
+  intro f hf
+  rw [tpfa_eq_tp2 G hwf hK p bc f hf, mpfa_eq_tp2 G hwf hK p bc Ls hcert f hf]
+
+/-- … entry by entry: column `c` of the MPFA `flux` matrix (the scheme applied to the unit vector of cell
+    `c`, zero boundary data) and column `f'` of its `bound_flux` matrix (unit boundary datum on face `f'`)
+    are the columns of the TPFA matrices `fluxT` / `boundFluxT`. -/
+theorem tpfa_eq_mpfa_Korth_entries (G : C11.Grid2) (Ls : List C11.Mat)
+    (hwf : G.WF) (hcert : G.certs = some Ls) (hK : KorthOK G = true) (f : Nat) (hf : f < G.numFaces) :
+    (∀ c < G.numCells, entry (fluxT (ofGrid2 G)) f c
+        = G.faceFlux (G.nodeSols Ls (C11.Grid2.unit G.numCells c) []) [] f) ∧
+    (∀ f' < G.numFaces, entry (boundFluxT (ofGrid2 G)) f f'
+        = G.faceFlux (G.nodeSols Ls [] (C11.Grid2.unit G.numFaces f')) (C11.Grid2.unit G.numFaces f') f) := by
+  constructor
+  · intro c hc
+    rw [← tpfa_eq_mpfa_Korth G Ls _ _ hwf hcert hK f hf]
+    unfold faceFlux
+    have h1 : (fun c' => (C11.Grid2.unit G.numCells c).getD c' 0) = fun j => if j = c then 1 else 0 := by
+      funext j; exact getD_unit _ _ j hc
+    have h2 : (fun f' : Nat => ([] : List Rat).getD f' 0) = fun _ => 0 := by funext j; simp
+    rw [h1, h2, rowApply_indicator, rowApply_zero]; ring
+  · intro f' hf'
+    rw [← tpfa_eq_mpfa_Korth G Ls _ _ hwf hcert hK f hf]
+    unfold faceFlux
+    have h1 : (fun j => (C11.Grid2.unit G.numFaces f').getD j 0) = fun j => if j = f' then 1 else 0 := by
+      funext j; exact getD_unit _ _ j hf'
+    have h2 : (fun c : Nat => ([] : List Rat).getD c 0) = fun _ => 0 := by funext j; simp
+    rw [h1, h2, rowApply_indicator, rowApply_zero]; ring
+
 /-! ### non-vacuity: the hypotheses are satisfiable on concrete grids, and the conclusions are the numbers
 the real code produces there -/
 
@@ -463,6 +601,67 @@ example : cellOp ex2 0 1 ≤ 0 ∧ 0 < cellOp ex2 0 0 ∧
   have h := tpfa_Mmatrix ex2 (by unfold WellFormed; decide +kernel) (by decide +kernel)
   ⟨h.1 0 1 (by decide), h.2.2.1 0 ⟨⟨0, 0, -1⟩, by decide +kernel, rfl, by decide +kernel⟩, h.2.2.2 0 (by decide)⟩
 example : cellOp ex2 0 0 = 7 / 2 ∧ cellOp ex2 0 1 = -3 / 2 ∧ cellOp ex2 1 1 = 7 / 2 := by decide +kernel
+
+theorem ex2_hint : ∀ f, f ∉ ex2.bndr → bsgn ex2 f = 0 := by
+  intro f hf
+  have : f = 1 ∨ 7 ≤ f := by
+    simp only [ex2, List.mem_cons, List.not_mem_nil, or_false, not_or] at hf; omega
+  rcases this with rfl | h7
+  · decide +kernel
+  · have : hfOf ex2 f = [] := by
+      unfold hfOf
+      apply List.filter_eq_nil_iff.mpr
+      intro h hh
+      have : h.face < 7 := by revert h; decide +kernel
+      simp; omega
+    simp [bsgn, this, sgnSum]
+
+/-- hydrostatic pressure `1 + G.x` on `ex2` (a grid in the xy-plane, `vsd = 2`) with vector source `G`:
+    zero flux on all 7 faces -/
+example : ∀ f, faceFlux ex2 f (fun c => 1 + exG.dot (ex2.cc c))
+      (fun f => if f == 0 || f == 6 then 1 + exG.dot (ex2.fc f) else 0)
+    + rowApply (vecSrcT ex2 2) f (vsVec 2 exG) = 0 :=
+  tpfa_hydrostatic_zero_flux ex2 2 1 exG _ _ (by decide) (by decide) (by decide +kernel) (by decide +kernel)
+    ex2_hint (by decide +kernel) (fun _ => rfl)
+    (by intro f _ hd; simp only [dirEff, ex2] at hd; have hd' : f = 0 ∨ f = 6 := by simpa using hd
+        rcases hd' with rfl | rfl <;> rfl)
+    (by
+      intro f hn
+      have : ¬ (f = 0 ∨ f = 6) := by
+        simp only [neuAll, ex2, Bool.or_false] at hn
+        rintro (rfl | rfl) <;> simp at hn
+      simp only [not_or] at this
+      simp [this.1, this.2])
+
+/-- … and the reconstructed pressure on the Neumann face 2 of `ex2` is `1 + G.x_f = 1 + 6 + 5/2` -/
+example : facePressure ex2 2 (fun c => 1 + exG.dot (ex2.cc c)) (fun _ => 0)
+    + rowApply (bpVecSrcT ex2 2) 2 (vsVec 2 exG) = 19 / 2 := by
+  have h := tpfa_hydrostatic_bound_pressure ex2 2 2 ⟨2, 1, 1⟩ 1 exG (fun c => 1 + exG.dot (ex2.cc c)) (fun _ => 0)
+    (by decide) (by decide) (by decide +kernel) (by decide +kernel) (by decide) (by decide +kernel) rfl rfl
+  rw [h]; decide +kernel
+
+/-- a K-orthogonal C11 grid: two rectangles (1 x 1 and 2 x 1) side by side, cell-wise diagonal tensors,
+    Dirichlet on the left, bottom-right and top-right faces, Neumann elsewhere -/
+def exGrid2 : C11.Grid2 :=
+  { nodes := [[0, 0], [1, 0], [3, 0], [0, 1], [1, 1], [3, 1]],
+    faceNodes := [[0, 3], [1, 4], [2, 5], [0, 1], [1, 2], [3, 4], [4, 5]],
+    faceCells := [[(0, -1)], [(0, 1), (1, -1)], [(1, 1)], [(0, -1)], [(1, -1)], [(0, 1)], [(1, 1)]],
+    cellCenters := [[1 / 2, 1 / 2], [2, 1 / 2]],
+    faceCenters := [[0, 1 / 2], [1, 1 / 2], [3, 1 / 2], [1 / 2, 0], [2, 0], [1 / 2, 1], [2, 1]],
+    faceNormals := [[1, 0], [1, 0], [1, 0], [0, 1], [0, 2], [0, 1], [0, 2]],
+    perm := [[[2, 0], [0, 3]], [[5, 0], [0, 1]]],
+    isDir := [true, false, false, false, true, false, true],
+    eta := 0 }
+
+/-- the hypotheses of `tpfa_eq_mpfa_Korth` are satisfiable: well-formed, all six interaction regions
+    certified, K-orthogonal; and the common value of the two schemes on some data -/
+example : exGrid2.WF ∧ (exGrid2.certs).isSome = true ∧ KorthOK exGrid2 = true := by decide +kernel
+
+example :
+    (exGrid2.certs).map (fun Ls => (exGrid2.apply Ls [3, -1] [2, 0, 5, 7, 1, 0, 4]).1)
+      = some ((List.range 7).map (fun f =>
+          faceFlux (ofGrid2 exGrid2) f (fun c => [3, -1].getD c 0) (fun f => [2, 0, 5, 7, 1, 0, 4].getD f 0))) := by
+  decide +kernel
 
 /-- half-face (face 1, cell 0) of `ex2`: `K = diag(1,2,1)`, outward normal `(1,0,0) = 2 d` -/
 example : 0 < tHalf ex2 ⟨1, 0, 1⟩ :=
